@@ -30,7 +30,15 @@ pub fn as_participant<T>(tid: i32, op: u32, f: impl FnOnce() -> T) -> (Result<T,
             Err(msg)
         }
     };
-    (r, shim::trace_since(start))
+    let trace = shim::trace_since(start);
+    // debugging aid: KVERIF_DUMP_INJECTED=1 prints every execution in which a fault was injected
+    if std::env::var("KVERIF_DUMP_INJECTED").is_ok() && trace.iter().any(|e| e.injected) {
+        eprintln!("---- t{} op {}", tid, op);
+        for (i, e) in trace.iter().enumerate() {
+            eprintln!("{:3} {}{}", i, e.brief(), if e.injected { "   <== injected" } else { "" });
+        }
+    }
+    (r, trace)
 }
 
 /// The next trigger event on this thread fires; later draws are `after`.
